@@ -245,6 +245,10 @@ type FnSpec struct {
 	Hoist     bool
 	HoistVars []string
 	Setters   bool // field assignments go through the `set_<field>` functions of structures that have them
+	// MonadicIf: in a function that may panic, an `if` that cannot leave its block by return/break/continue but may
+	// panic (indexing, slicing, panic(), panicking callees) is emitted as ONE tuple-valued `← do` block as well
+	// (`let t : T ← do …; pure (vars)`), so that the code behind it is not duplicated into its branches
+	MonadicIf bool
 	// MapOrder: Lean function (List of keys → List of keys) giving the order in which `for k := range m` visits the
 	// keys of a Go map that the configuration represents as the list of its keys (Go leaves the order unspecified;
 	// theorems quantify over the function and assume only that it permutes the keys)
@@ -1538,8 +1542,8 @@ func (t *tr) stmt(s ast.Stmt) {
 		t.block(x.List)
 		t.pop()
 	case *ast.IfStmt:
-		if vars, ok := t.pureIf(x); ok {
-			t.emitPureIf(x, vars)
+		if vars, throws, ok := t.pureIf(x); ok {
+			t.emitPureIf(x, vars, throws)
 			return
 		}
 		t.push()
@@ -1611,11 +1615,19 @@ func (t *tr) stmt(s ast.Stmt) {
 // continue, panic, no operation that may panic or that a modelled operation ends with a `return`) only assigns
 // variables.  It is emitted as ONE tuple-valued block over the outer variables it assigns, so that the code
 // after it is not duplicated into both branches by the `do` notation.  Returns those variables (Lean names).
-func (t *tr) pureIf(x *ast.IfStmt) ([]string, bool) {
+func (t *tr) pureIf(x *ast.IfStmt) ([]string, bool, bool) {
 	if t.spec.NoPureIf {
-		return nil, false
+		return nil, false, false
 	}
 	escapes := false
+	throws := false
+	mayThrow := func() {
+		if t.spec.MonadicIf && t.mayPanic {
+			throws = true
+		} else {
+			escapes = true
+		}
+	}
 	assigned := map[string]bool{}
 	declaredInside := map[string]bool{}
 	recvAssigned := false
@@ -1630,20 +1642,23 @@ func (t *tr) pureIf(x *ast.IfStmt) ([]string, bool) {
 			if tv, ok := t.p.info.Types[y.X]; ok {
 				if _, isMap := tv.Type.Underlying().(*types.Map); !isMap {
 					if _, aliased := t.alias[t.p.text(y)]; !aliased {
-						escapes = true
+						mayThrow()
 					}
 				}
 			}
 		case *ast.SliceExpr:
 			if !isEmptyPrefixSlice(t.p, y) {
-				escapes = true
+				mayThrow()
 			}
 		case *ast.CallExpr:
-			if id, ok := y.Fun.(*ast.Ident); ok && (id.Name == "panic" || id.Name == "delete") {
+			if id, ok := y.Fun.(*ast.Ident); ok && id.Name == "delete" {
 				escapes = true
 			}
+			if id, ok := y.Fun.(*ast.Ident); ok && id.Name == "panic" {
+				mayThrow()
+			}
 			if calleeText(t.p, y.Fun, t.recvName) == "goutil.Panicf" {
-				escapes = true
+				mayThrow()
 			}
 			callee := calleeText(t.p, y.Fun, t.recvName)
 			ext := t.findExt(callee)
@@ -1653,20 +1668,29 @@ func (t *tr) pureIf(x *ast.IfStmt) ([]string, bool) {
 				}
 			}
 			if ext != nil {
-				if ext.MayPanic || ext.Effect != "" {
+				if ext.Effect != "" {
 					escapes = true
 				}
+				if ext.MayPanic {
+					mayThrow()
+				}
 				for _, st := range ext.Stmts {
-					if strings.Contains(st, "return") || strings.Contains(st, "←") {
+					if strings.Contains(st, "return") {
 						escapes = true
+					}
+					if strings.Contains(st, "←") {
+						mayThrow()
 					}
 					if m := stmtAssignRe.FindStringSubmatch(st); m != nil {
 						assigned[m[1]] = true
 					}
 				}
 			} else if fi, recvExpr := t.g.lookupFn(t.p, y, nil); fi != nil {
-				if fi.mayPanic || fi.hasLoop {
+				if fi.hasLoop {
 					escapes = true
+				}
+				if fi.mayPanic {
+					mayThrow()
 				}
 				if fi.mutates && recvExpr != nil {
 					if base, _, ok := t.lvalStruct(recvExpr); ok {
@@ -1737,7 +1761,7 @@ func (t *tr) pureIf(x *ast.IfStmt) ([]string, bool) {
 		return !escapes
 	}
 	if x.Init != nil {
-		return nil, false
+		return nil, false, false
 	}
 	ast.Inspect(x.Cond, func(n ast.Node) bool { // the condition is evaluated outside the block
 		return true
@@ -1748,27 +1772,27 @@ func (t *tr) pureIf(x *ast.IfStmt) ([]string, bool) {
 	}
 	_ = recvAssigned
 	if escapes {
-		return nil, false
+		return nil, false, false
 	}
 	var vars []string
 	for _, v := range t.visibleMuts() {
 		if assigned[v] {
 			if t.ltypes[v] == "" {
-				return nil, false
+				return nil, false, false
 			}
 			vars = append(vars, v)
 			delete(assigned, v)
 		}
 	}
 	if len(assigned) > 0 { // assigns something that is not a tracked mutable variable
-		return nil, false
+		return nil, false, false
 	}
-	return vars, true
+	return vars, throws, true
 }
 
 var stmtAssignRe = regexp.MustCompile(`^(\w+) :=`)
 
-func (t *tr) emitPureIf(x *ast.IfStmt, vars []string) {
+func (t *tr) emitPureIf(x *ast.IfStmt, vars []string, throws bool) {
 	c, _ := t.expr(x.Cond)
 	if len(vars) == 0 {
 		t.emit("-- (no effect on the modelled state) if %s …", strings.ReplaceAll(t.p.text(x.Cond), "\n", " "))
@@ -1806,7 +1830,13 @@ func (t *tr) emitPureIf(x *ast.IfStmt, vars []string) {
 		}
 		saveLines, saveInd = t.lines, t.ind
 		t.lines, t.ind = nil, 0
-		t.emit("def %s %s %s : %s := Id.run do", hoistName, t.binders, strings.Join(hoistBinders, " "), strings.Join(tys, " × "))
+		if throws {
+			t.emit("def %s %s %s : Except Panic (%s) := do", hoistName, t.binders, strings.Join(hoistBinders, " "), strings.Join(tys, " × "))
+		} else {
+			t.emit("def %s %s %s : %s := Id.run do", hoistName, t.binders, strings.Join(hoistBinders, " "), strings.Join(tys, " × "))
+		}
+	} else if throws {
+		t.emit("let %s : %s ← do", n, strings.Join(tys, " × "))
 	} else {
 		t.emit("let %s : %s := Id.run do", n, strings.Join(tys, " × "))
 	}
@@ -1837,14 +1867,22 @@ func (t *tr) emitPureIf(x *ast.IfStmt, vars []string) {
 		}
 		t.ind--
 	}
-	t.emit("return %s", tupleOf(vars))
+	if throws {
+		t.emit("pure %s", tupleOf(vars))
+	} else {
+		t.emit("return %s", tupleOf(vars))
+	}
 	t.ind--
 	if t.spec.Hoist {
 		aux := fmt.Sprintf("/-- block %s of `%s` (`if %s …`) -/\n%s\n", n[1:], t.spec.Lean,
 			strings.ReplaceAll(t.p.text(x.Cond), "\n", " "), strings.Join(t.lines, "\n"))
 		t.aux = append(t.aux, aux)
 		t.lines, t.ind = saveLines, saveInd
-		t.emit("let %s := %s %s", n, hoistName, strings.Join(hoistArgs, " "))
+		if throws {
+			t.emit("let %s ← %s %s", n, hoistName, strings.Join(hoistArgs, " "))
+		} else {
+			t.emit("let %s := %s %s", n, hoistName, strings.Join(hoistArgs, " "))
+		}
 	}
 	// a pattern assignment (a `match` in the elaborated term) rather than projections: the block is not copied
 	// into every use of the variables when a proof unfolds the definition
@@ -2038,8 +2076,7 @@ func (t *tr) rangeStmt(x *ast.RangeStmt) {
 			t.fail(x, "range value")
 		}
 		if id.Name != "_" {
-			v = t.declare(id.Name)
-			t.ltypes[v] = elemT.Lean
+			v = t.declareT(id.Name, elemT.Lean)
 		}
 	}
 	t.emit("for %s_it in %s do", v, coll)
